@@ -5,6 +5,7 @@ import (
 	"go/constant"
 	"go/token"
 	"go/types"
+	"os"
 	"strings"
 
 	"golang.org/x/tools/go/ssa"
@@ -210,8 +211,31 @@ func (fr *Frame) preludeCall(st *State, name string, fn *ssa.Function, args []Va
 		return Val{T: Select(ex.get(st, comp, ArraySort(SInt, ex.ctx.SortOf(rt))), args[1].T)}, true
 	case "__fresh":
 		return Val{T: TTrue}, true
+	case "__elemsUnchangedExcept", "__elemsUnchangedExcept2":
+		// frame for slice contents: every backing array other than the listed ones is unchanged
+		elem := cc.Args[0].Type().Underlying().(*types.Slice).Elem()
+		c, cs := ex.elemsComp(elem)
+		cur := ex.get(st, c, cs)
+		old := substPrefix(cur, "CUR.", "OLD.")
+		rb := Bound{Name: ex.boundName("r"), Sort: SRef}
+		rv := V(rb.Name, SRef)
+		var except []*Term
+		for _, a := range args {
+			except = append(except, Eq(rv, SArr(a.T)))
+		}
+		except = append(except, Eq(Select(cur, rv), Select(old, rv)))
+		return Val{T: Forall([]Bound{rb}, Or(except...))}, true
+	case "__spawnN":
+		return Val{T: ex.get(st, "SpawnN", SInt)}, true
+	case "__spawnArg":
+		return Val{T: Select(ex.get(st, "SpawnArg", ArraySort(SInt, SInt)), args[0].T)}, true
+	case "__spawnIs":
+		id := ex.w.spawnID(constString(cc.Args[1]))
+		return Val{T: Eq(Select(ex.get(st, "SpawnFn", ArraySort(SInt, SInt)), args[0].T), IntLit(int64(id)))}, true
 	case "__sameArray":
 		return Val{T: And(Eq(SArr(args[0].T), SArr(args[1].T)), Eq(SOff(args[0].T), SOff(args[1].T)))}, true
+	case "__sameSlice":
+		return Val{T: Eq(args[0].T, args[1].T)}, true
 	case "__nilSlice":
 		return Val{T: Eq(SArr(args[0].T), TNull)}, true
 	case "__disjoint":
@@ -290,6 +314,9 @@ func (fr *Frame) applyContract(st *State, fn *ssa.Function, c *LoadedContract, a
 	pre := st.clone()
 	// havoc the callee's frame
 	frame := ex.w.frameOf(fn, c)
+	if os.Getenv("VC_DEBUG") != "" && ex.quiet == 0 {
+		fmt.Fprintf(os.Stderr, "FRAME %s all=%v %v\n", key, frame.all, sortedKeys(frame.comps))
+	}
 	if frame.all {
 		ex.note("callee %s has an unbounded frame: all modelled heap havoc at %s", key, fr.pos(pos))
 		for comp, sort := range ex.compSort {
